@@ -350,6 +350,11 @@ void Runner::op_start(Thread *t, int idx, const Op &op, OpRes &res) {
     viol("C04", "success-without-exec", fmt("fault=%s", first ? kind_name[first->kind] : "none"),
          fmt("start reported success but the program was never executed (child is %s)", child->st == Proc::RUNNING ? "running" : "dead"), idx);
   }
+  if (s.fork && !child->image) {
+    // fork mode: success means the forked copy came back out of start; a copy that hit a failure reports it and exits
+    viol("C04", "success-without-exec", fmt("mode=fork/fault=%s", first ? kind_name[first->kind] : "none"),
+         fmt("start reported success in fork mode but the forked copy never returned from start (child is %s)", child->st == Proc::RUNNING ? "running" : "dead"), idx);
+  }
   if (want_err && first && !(first->kind == K_read && !first->child)) {
     // a failing call the launch depends on was swallowed, yet the child runs: tolerated only if the program really runs as requested
   }
